@@ -125,7 +125,7 @@ pub open spec fn lower_shows(c: Seq<RealInode>) -> bool {
 pub open spec fn sp_upper(v: Seq<RealInode>) -> Option<RealInode> { if v.len() > 0 && v[0].in_upper_layer { Some(v[0]) } else { None } }
 '''
 
-NEW1_ENS = ['r.inode == ino && r.path@ == path@ && r.name@ == name@ && r.whiteout.v == real_inode.whiteout && r.ris() == seq![real_inode] && r.lookups.v == 1 && !r.loaded.v && r.childrens.v@ == Map::<Seq<char>, Arc<OverlayInode>>::empty()']
+NEW1_ENS = ['r.inode == ino && r.path@ == path@ && r.name@ == name@ && r.whiteout.v == real_inode.whiteout && r.ris() == seq![real_inode] && r.lookups.v == 1 && !r.loaded.v && r.childrens.v@ == Map::<Seq<char>, Arc<OverlayInode>>::empty() // [C10.union.single] a node made from one real inode: that inode, hidden iff it is a whiteout']
 CTX0 = '(Context { uid: 0, gid: 0, pid: 0 })'
 NEWN_ENS = [
     'real_inodes@.len() == 0 ==> r is Err && err_is(r->Err_0, 22)',
@@ -185,7 +185,7 @@ SCAN_AFTER_ENTRY = '''
                     let a1 = all_layer_inodes@; let jj = j as nat;
                     assert(l0[p0].0@ == nm0);
                     assert forall|nm: Seq<char>| (#[trigger] a1.contains_key(nm) <==> (cands(rs, *ctx, jj, nm).len() > 0 || consumed(l0, p, nm)))
-                            && (a1.contains_key(nm) ==> a1[nm]@ == (if consumed(l0, p, nm) { cands(rs, *ctx, jj, nm).push(d[nm]) } else { cands(rs, *ctx, jj, nm) })) by {
+                            && (a1.contains_key(nm) ==> a1[nm]@ == (if consumed(l0, p, nm) { cands(rs, *ctx, jj, nm).push(d[nm]) } else { cands(rs, *ctx, jj, nm) })) by { // [scan_entries] the entry of this layer goes BEHIND the entries of the layers above
                         if nm == nm0 {
                             assert(consumed(l0, p, nm));
                             assert(a0.contains_key(nm0) <==> cands(rs, *ctx, jj, nm0).len() > 0);
